@@ -133,6 +133,19 @@ def parse_str_list_list(out: str):
     return ["".join(chr(int(x)) for x in it.split(";") if x.strip()) for it in items]
 
 
+def eval_expected(ctx, name, preamble, fn, case_terms):
+    """evaluate `fn case` for each case in ONE Coq file; -> list of list[str] (None where unparsable)"""
+    if not case_terms:
+        return []
+    text = preamble + "\n".join(f"Eval vm_compute in ({fn} {c})." for c in case_terms) + "\n"
+    rc, out = core.coqc_scratch(ctx, name, text)
+    if rc != 0:
+        return [None] * len(case_terms)
+    chunks = [c for c in re.split(r"(?=^\s*=\s)", out, flags=re.M) if re.match(r"\s*=\s", c)]
+    res = [parse_str_list_list(c) for c in chunks]
+    return res if len(res) == len(case_terms) else [None] * len(case_terms)
+
+
 # ------------------------------------------------------------------------------------------------
 # generators
 # ------------------------------------------------------------------------------------------------
@@ -336,21 +349,21 @@ def run_inprocess(ctx):
         ctx.mismatch("CodemodRegistry.match_codemods vs Model.Select.match_codemods_model",
                      f"[{label}] include={incl} exclude={excl} sast={truth}: implementation returned {obs[:8]}",
                      {"registry": rows if len(rows) < 30 else "real", "include": incl, "exclude": excl, "sast": truth, "observed": obs})
+    failing = bad["sel_spec_ok"][:60]
+    exps = eval_expected(ctx, "c17_expected", pool.preamble(), "sel_expected", [cases[i] for i in failing])
     shown = {}
-    for i in bad["sel_spec_ok"]:
+    for i, exp in zip(failing, exps):
         label, rows, incl, excl, truth, obs = meta[i]
-        exp = None
-        if sum(shown.values()) < 8:
-            out = core.eval_term(ctx, f"c17_exp_{i}", pool.preamble(), f"sel_expected {cases[i]}")
-            exp = parse_str_list_list(out)
         cls = classify(incl, excl, obs, exp)
         shown[cls] = shown.get(cls, 0) + 1
-        if shown[cls] > 3 and exp is None:
+        if shown[cls] > 3:
             continue
         ctx.violation(cls, f"[{label}] include={incl} exclude={excl} sast={truth}: selected {obs[:8]}{'...' if len(obs) > 8 else ''}, "
                            f"reference selection {exp if exp is None or len(exp) <= 8 else exp[:8] + ['...']}",
                       {"registry": rows if len(rows) < 30 else "real", "include": incl, "exclude": excl, "sast": truth,
                        "observed": obs, "expected": exp, "op": "match_codemods"})
+    if len(bad["sel_spec_ok"]) > len(failing):
+        ctx.notes.append(f"{len(bad['sel_spec_ok'])} in-process cases deviate from the reference selection; the first {len(failing)} were classified")
 
 
 def run_matchers(ctx):
@@ -554,7 +567,7 @@ def run_e2e(ctx):
                      {"argv": argv, "observed": lines})
     for i in bad["e2e_spec_ok"]:
         label, argv, lines, incl, excl, tool = meta[i]
-        exp = parse_str_list_list(core.eval_term(ctx, f"c17_e2e_exp_{i}", pool.preamble(), f"e2e_expected {cases[i]}"))
+        exp = eval_expected(ctx, f"c17_e2e_exp_{i}", pool.preamble(), "e2e_expected", [cases[i]])[0]
         cls = classify(incl, excl, lines, exp)
         ctx.violation(cls, f"[{label}] the CLI executed {lines}, reference selection {exp}",
                       {"argv": argv, "observed": lines, "expected": exp, "op": "cli", "project": core.b64tree(TINY)})
